@@ -32,6 +32,7 @@
 
 //! Builder for decision table evaluators.
 
+use crate::errors::err_invalid_number_of_entries;
 use dmntk_common::Result;
 use dmntk_feel::context::FeelContext;
 use dmntk_feel::values::{Value, Values};
@@ -117,8 +118,10 @@ impl EvaluatedDecisionTable {
         result.set_entry(&self.component_names[i], value.clone());
       }
       Value::Context(result)
+    } else if let Some(value) = evaluated_rule.output_entry_values.first() {
+      value.clone()
     } else {
-      evaluated_rule.output_entry_values[0].clone()
+      value_null!("decision table has no output clauses")
     }
   }
   /// Returns a result composed from values taken from evaluated output entries.
@@ -303,6 +306,13 @@ fn parse_decision_table(scope: &Scope, decision_table: &DecisionTable) -> Result
   // parse all rules
   let mut parsed_rules = vec![];
   for rule in &decision_table.rules {
+    // every rule must have an entry for every clause
+    if rule.input_entries.len() != input_expressions_and_values.len() {
+      return Err(err_invalid_number_of_entries(rule.input_entries.len(), "input", input_expressions_and_values.len()));
+    }
+    if rule.output_entries.len() != output_values_nodes.len() {
+      return Err(err_invalid_number_of_entries(rule.output_entries.len(), "output", output_values_nodes.len()));
+    }
     // parse input clause
     let mut input_entries_evaluators = vec![];
     for (i, (input_expression, input_values)) in input_expressions_and_values.iter().enumerate() {
